@@ -46,15 +46,53 @@ fn real_table<K: Kmer>(reads: &[Read], stranded: bool, slices: usize) -> Result<
     let kmer_mem = input_kmers * std::mem::size_of::<(K, u8)>();
     let unit = if slices <= 1 || kmer_mem == 0 { usize::MAX / 4 } else { (kmer_mem / (slices - 1)).max(1) };
     debruijn::verif_hooks::set_mem_unit(Some(unit));
-    let r = real_table_inner::<K>(&seqs, stranded);
+    let r = real_table_inner::<K, _>(&seqs, stranded);
     debruijn::verif_hooks::set_mem_unit(None);
     r
 }
 
-fn real_table_inner<K: Kmer>(seqs: &[(DnaBytes, Exts, u8)], stranded: bool) -> Result<BTreeMap<Seq, TableRow>, String> {
-    let (a, _) = filter_kmers::<K, DnaBytes, u8, u16, CountFilter>(seqs, &Box::new(CountFilter::new(1)), stranded, false, 1);
+/// The same table, but the reads are handed over as views into longer strings, and a reverse-complemented
+/// read is represented as the `rc()` VIEW of the stored forward read (not as re-materialised bases).
+fn real_table_views<K: Kmer>(orig: &[Read], mask: u32, stranded: bool, slices: usize) -> Result<BTreeMap<Seq, TableRow>, String> {
+    use debruijn::dna_string::{DnaString, DnaStringSlice};
+    use debruijn::Mer;
+    let backing: Vec<(usize, DnaString)> = orig
+        .iter()
+        .enumerate()
+        .map(|(i, r)| {
+            let a = (i * 13 + 5) % 41;
+            let mut v: Seq = (0..a).map(|j| ((j * 7 + i) % 4) as u8).collect();
+            v.extend_from_slice(&r.seq);
+            v.extend_from_slice(&[2, 0, 3, 1, 1, 2]);
+            (a, DnaString::from_bytes(&v))
+        })
+        .collect();
+    let seqs: Vec<(DnaStringSlice, Exts, u8)> = orig
+        .iter()
+        .enumerate()
+        .map(|(i, r)| {
+            let (a, d) = &backing[i];
+            let v = d.slice(*a, *a + r.seq.len());
+            if (mask >> (i % 32)) & 1 == 1 {
+                (v.rc(), Exts::new(model::ext_rc(r.exts)), r.label)
+            } else {
+                (v, Exts::new(r.exts), r.label)
+            }
+        })
+        .collect();
+    let input_kmers: usize = orig.iter().map(|r| r.seq.len().saturating_sub(K::k() - 1)).sum();
+    let kmer_mem = input_kmers * std::mem::size_of::<(K, u8)>();
+    let unit = if slices <= 1 || kmer_mem == 0 { usize::MAX / 4 } else { (kmer_mem / (slices - 1)).max(1) };
+    debruijn::verif_hooks::set_mem_unit(Some(unit));
+    let r = real_table_inner::<K, _>(&seqs, stranded);
+    debruijn::verif_hooks::set_mem_unit(None);
+    r
+}
+
+fn real_table_inner<K: Kmer, V: debruijn::Vmer>(seqs: &[(V, Exts, u8)], stranded: bool) -> Result<BTreeMap<Seq, TableRow>, String> {
+    let (a, _) = filter_kmers::<K, V, u8, u16, CountFilter>(seqs, &Box::new(CountFilter::new(1)), stranded, false, 1);
     let (b, _) =
-        filter_kmers::<K, DnaBytes, u8, Vec<u8>, CountFilterSet<u8>>(seqs, &Box::new(CountFilterSet::new(1)), stranded, false, 1);
+        filter_kmers::<K, V, u8, Vec<u8>, CountFilterSet<u8>>(seqs, &Box::new(CountFilterSet::new(1)), stranded, false, 1);
     let mut out: BTreeMap<Seq, TableRow> = BTreeMap::new();
     for (k, e, c) in a.iter() {
         if out.insert(kseq(k), (e.val, *c, Vec::new())).is_some() {
@@ -182,7 +220,12 @@ pub fn check<K: Kmer + Send + Sync>(c: &Case) -> CheckResult {
             .collect();
         let nflip = (0..n).filter(|i| (c.mask >> (i % 32)) & 1 == 1).count();
         let t1 = real_table::<K>(&reads, false, 1)?;
-        let t2 = real_table::<K>(&flipped, false, slices)?;
+        let as_views = (c.mask >> 19) & 1 == 1;
+        let t2 = if as_views {
+            real_table_views::<K>(&reads, c.mask, false, slices)?
+        } else {
+            real_table::<K>(&flipped, false, slices)?
+        };
         for key in t1.keys() {
             let r = rc(key);
             if r.as_slice() < key.as_slice() {
@@ -257,7 +300,8 @@ pub fn check<K: Kmer + Send + Sync>(c: &Case) -> CheckResult {
             .label(c.pipeline == 2, "pipeline_recompressed")
             .label(c.pipeline == 3, "pipeline_sharded")
             .label(c.pipeline == 4, "pipeline_msp_sharded")
-            .label(slices > 1, "multi_pass_table"))
+            .label(slices > 1, "multi_pass_table")
+            .label(as_views, "flipped_reads_as_rc_views"))
     } else {
         let t = real_table::<K>(&reads, true, slices)?;
         let mt = model::build_table(&reads, k, true);
